@@ -1540,6 +1540,44 @@ pub fn run_c17(rep: &mut Report) {
             );
         }
     }
+    // ---- collision-guided pairs on EventDecoder<AnyLayout>, steered by the object's raw memory (no Debug needed): inputs that
+    //      leave a word of the decoder equal although they differ (a remembered look-up keyed on a lossy digest) are pressed
+    //      back to back; the second press must be what the wrapped layout itself returns for it
+    {
+        let lis: Vec<usize> = if rep.thorough() { (0..10).collect() } else { vec![(rep.seed as usize) % 10, ((rep.seed as usize) + 3) % 10] };
+        let mut handles = Vec::new();
+        for li in lis {
+            let keys = cube.keys.clone();
+            handles.push((li, std::thread::spawn(move || guarded(|| crate::forks::raw_collision_pairs(li, &keys, 300_000)))));
+        }
+        let (mut fp, mut np) = (0u64, 0u64);
+        for (li, h) in handles {
+            let Ok(Ok((obs, fingerprinted, pairs))) = h.join() else { continue };
+            fp += fingerprinted;
+            np += pairs;
+            let mut reported = 0;
+            for o in obs {
+                rep.evaluations += 1;
+                let (ki, m, mode) = o.second;
+                // the oracle is an EventDecoder over the bare layout put through the very same operations
+                let Some(want) = o.bare.clone() else { continue };
+                if dk_enc_opt(&o.got) != Some(dk_enc(want.clone())) && reported < 20 {
+                    reported += 1;
+                    let (k1, m1, mode1) = o.first;
+                    rep.violate(
+                        format!("C17|decoder-pair|{}|key={:?}|want={}|got={}", layout_name(li), cube.keys[ki], dk_str(&want), odk_str(&o.got)),
+                        format!(
+                            "EventDecoder<AnyLayout::{}>: after a press of {:?} with {} (mode {}) and modifier events only, the press of {:?} with {} (mode {}) gives {} but {} itself gives {}",
+                            layout_name(li), cube.keys[k1], mods_str(m1), mode_str(MODES[mode1]), cube.keys[ki], mods_str(m), mode_str(MODES[mode]), odk_str(&o.got), layout_name(li), dk_str(&want)
+                        ),
+                        J::obj().with("kind", J::s("anylayout-decoder-pair")).with("layout", J::s(layout_name(li))).with("first", J::s(format!("{:?} {} {}", cube.keys[k1], mods_str(m1), mode_str(MODES[mode1])))).with("second", J::s(format!("{:?} {} {}", cube.keys[ki], mods_str(m), mode_str(MODES[mode])))),
+                    );
+                }
+            }
+        }
+        rep.count("presses_fingerprinted_by_the_raw_memory_of_EventDecoder<AnyLayout>", fp);
+        rep.count("pairs_of_presses_leaving_a_memory_word_equal_pressed_back_to_back", np);
+    }
     c17_hidden_state_probe(rep, &cube);
     concurrent_objects(rep, &cube, 17);
     rep.count("variant_switches", switches);
